@@ -1,8 +1,14 @@
-// Driver for C10 (spec/QBFTTimely.tla): replays timely multi-operator executions on real controllers and feeds
-// EVERY message a correct operator broadcasts - proposals, prepares, commits, round-changes, the aggregated decided
-// messages of Controller.broadcastDecided - to the real message validator of every other correct peer, at a
-// virtual time inside the round in which it was emitted. A verdict of class `reject` for such a message is a
-// violation; in fault-free in-order runs anything but `accept` is.
+// Driver for C10 (spec/QBFTTimely.tla, spec/PartialTimely.tla): replays timely multi-operator executions on real code
+// and feeds EVERY message a correct operator broadcasts to the real message validator of every other correct peer, at a
+// virtual time inside the message's window. A verdict of class `reject` for such a message is a violation; in
+// fault-free in-order runs anything but `accept` is.
+//
+//   - consensus world (this file, worldpool.go): real QBFT controllers of committees 4 and 7 (qbftkit) - proposals,
+//     prepares, commits, round-changes, the aggregated decided messages of Controller.broadcastDecided; rounds are timed
+//     by the real round-timer arithmetic (dutyrun.go: clockTime), up to the highest round the gate admits for the role;
+//   - duty world (duty.go, dutyrun.go; behaviours with params.mode = "duty"): real validators with the real duty
+//     runners of all seven roles - pre-consensus and post-consensus partial-signature messages, consensus messages with
+//     real consensus data.
 package main
 
 import (
@@ -104,7 +110,7 @@ func newRun(b vh.Behaviour, res *vh.Result, env *valkit.Env) *run {
 	r := &run{res: res, b: b, env: env, peers: map[kit.OpID]*valkit.Peer{}, gr: 1, pos: toInt(p["pos"]), sync: vh.Bool(p, "sync"), role: role, height: height,
 		roleName: vh.Str(p, "role")}
 	probeWindow(env, role)
-	r.w = kit.NewWorld(n, byz, height, sv, role)
+	r.w = newPooledWorld(n, byz, height, sv, role)
 	for _, h := range r.w.Honest {
 		r.peers[h] = env.NewPeer(farFork)
 	}
@@ -154,6 +160,9 @@ func (r *run) validateNew() {
 			case out.Class == "reject":
 				r.res.Violate("C10:honest-message-rejected:"+out.Rule, fmt.Sprintf("peer %d REJECTED the %s (round %d) that correct operator %d broadcast in global round %d: %s",
 					p, kind, e.Msg.Message.Round, e.From, r.gr, out.Err), r.b.ID, r.step)
+			case !out.TimeOK && out.Class == "ignore" && timeDependent(out.Rule):
+				// the call was descheduled beyond the timing margin: not the intended virtual time
+				r.res.Counters["timing_uncertain"]++
 			case r.sync && out.Class != "accept":
 				r.res.Violate("C10:honest-message-not-accepted-in-sync-run:"+out.Rule, fmt.Sprintf("fault-free in-order run: peer %d did not accept the %s (round %d) of operator %d: %s",
 					p, kind, e.Msg.Message.Round, e.From, out.Err), r.b.ID, r.step)
@@ -345,6 +354,7 @@ func main() {
 		} else {
 			replay(b, res, env)
 		}
+		releaseWorlds()
 		kit.CloseAll()
 	}
 	for r, n := range lateSlots {
